@@ -1,4 +1,4 @@
-"""C01, oracle-only streams (nothing here is modelled in Lean):
+"""C01, oracle-only streams (nothing here is modelled in Lean except where the Lean `sd` oracle is used):
 
   * ShapelyPolygon (convex, non-convex, darts, rectilinear, with a hole), TrimeshPolyhedron (boxes, tetrahedra,
     prisms), Point: every point of sample_random_uniform / sample_grid (n and density), of the boundaries and
@@ -189,8 +189,10 @@ def unfrs(vs):
 def make_case(ctx, idx):
     rng = ctx.rng
     stream = rng.choice(["polygon", "polygon", "polygon", "polygon", "polygon", "fillup", "fillup", "polycombo", "polycombo", "mesh", "point",
-                         "composed", "composed", "composed", "composed"])
+                         "composed", "composed", "composed", "composed", "peval", "peval", "peval"])
     seed = rng.randint(0, 2 ** 31 - 1)
+    if stream == "peval":
+        return make_peval_case(rng, idx, seed)
     if stream in ("polygon", "fillup"):
         fam, outer, hole = gen_polygon(rng)
         if stream == "fillup":
@@ -289,6 +291,166 @@ def make_case(ctx, idx):
         kinds = [rng.choice(["uniform", "grid"]) for _ in range(2)]     # both operands must deliver n rows per parameter row
     return dict(id=idx, stream="composed", comp=comp, a=a.describe(), b=b.describe(), kinds=kinds, params=params, prows=prows, n=n,
                 d=rng.choice([2.0, 5.0]), seed=seed)
+
+
+def two_var_prim(rng, var):
+    """a primitive whose parameter functions depend on BOTH t and D (one function of two free variables)"""
+    from geomgen import c as C, PF, dy
+    T, Dv = ("v", "t", 0), ("v", "D", 0)
+    sl = lambda: Fr(rng.choice([-3, -2, -1, 1, 2, 3]), 4)
+    pos = lambda: Fr(rng.choice([1, 2, 3, 4]), 4)
+
+    def aff2(base, a, b):
+        return ("+", ("+", C(base), ("*", C(a), T)), ("*", C(b), Dv))
+    if var == "y":
+        lo = aff2(dy(rng, -2, 1), sl(), sl())
+        return Node("interval", var, [PF([lo]), PF([("+", lo, aff2(dy(rng, 0.5, 2), pos(), pos()))])])
+    if var == "z":
+        return Node("sphere", var, [PF([aff2(dy(rng, -1, 1), sl(), sl()), C(dy(rng, -1, 1)), aff2(dy(rng, -1, 1), sl(), sl())]),
+                                    PF([aff2(dy(rng, 0.5, 1.5), pos(), pos())])])
+    kind = rng.choice(["circle", "circle", "par", "tri"])
+    if kind == "circle":
+        return Node("circle", var, [PF([aff2(dy(rng, -2, 2), sl(), sl()), aff2(dy(rng, -2, 2), sl(), sl())]),
+                                    PF([aff2(dy(rng, 0.25, 1.5), pos(), pos())])])
+    while True:
+        o = [dy(rng, -2, 2), dy(rng, -2, 2)]
+        d1 = [dy(rng, -3, 3), dy(rng, -3, 3)]
+        d2 = [dy(rng, -3, 3), dy(rng, -3, 3)]
+        if abs(d1[0] * d2[1] - d1[1] * d2[0]) >= 1:
+            break
+    a, b = sl(), sl()
+    corner = lambda p: PF([aff2(p[0], a, b), aff2(p[1], b, a)])     # a common shift keeps the shape non-degenerate
+    return Node(kind, var, [corner(o), corner([o[0] + d1[0], o[1] + d1[1]]), corner([o[0] + d2[0], o[1] + d2[1]])])
+
+
+def make_peval_case(rng, idx, seed):
+    """D(**vals): several copies evaluated in sequence from ONE original, an EARLIER copy is sampled"""
+    from geomgen import c as C, PF, dy
+    var = rng.choice(["x", "x", "x", "y", "z"])
+    shape = rng.choice(["prim", "prim", "union", "cut", "translate", "bdry", "bdry"])
+    a = two_var_prim(rng, var)
+    if shape in ("prim", "bdry"):
+        node = a
+    elif shape == "union":
+        node = Node("union", None, [], [a, two_var_prim(rng, var)])
+    elif shape == "cut":
+        # remove a small piece around a vertex-independent place: a disc / ball / interval far from covering a
+        if var == "x":
+            b = Node("circle", var, [PF([("+", C(dy(rng, -2, 2)), ("*", C(Fr(1, 2)), ("v", "D", 0))), C(dy(rng, -2, 2))]), PF([C(Fr(1, 4))])])
+        elif var == "y":
+            b = Node("interval", var, [PF([C(Fr(-50))]), PF([("+", C(Fr(-49)), ("*", C(Fr(1, 4)), ("v", "D", 0)))])])
+        else:
+            b = Node("sphere", var, [PF([C(Fr(9)), C(Fr(9)), ("+", C(Fr(9)), ("v", "D", 0))]), PF([C(Fr(1, 4))])])
+        node = Node("cut", None, [], [a, b])
+    else:
+        n_ = geomgen.DIM[var]
+        node = Node("translate", var, [PF([("+", C(dy(rng, -1, 1)), ("*", C(Fr(1, 2)), ("v", "D", 0)))] + [C(dy(rng, -1, 1)) for _ in range(n_ - 1)])], [a])
+    fixvar = rng.choice(["D", "D", "t"])
+    freevar = "t" if fixvar == "D" else "D"
+    vals = [Fr(rng.randint(0, 16), 16) for _ in range(rng.choice([2, 3]))]
+    while len(set(vals)) < len(vals):
+        vals = [Fr(rng.randint(0, 16), 16) for _ in range(len(vals))]
+    k = rng.choice([1, 2, 3])
+    return dict(id=idx, stream="peval", dom=node.describe(), bdry=(shape == "bdry"), fixvar=fixvar, freevar=freevar,
+                vals=[str(v) for v in vals], sampled=rng.randrange(len(vals) - 1), then_other=rng.random() < 0.3,
+                prows=[{freevar: [str(Fr(rng.randint(0, 16), 16))]} for _ in range(k)],
+                api=rng.choice(["dom.random", "dom.random", "dom.grid", "smp.uniform", "smp.grid"]), n=rng.choice([1, 2, 5, 20]), seed=seed)
+
+
+class PFB(geomgen.PF):
+    """parameter function whose Python form broadcasts its arguments (an evaluated variable is a 1-row default,
+    the free one comes with all rows) — what a user has to write for `D(t=...)` to be usable with several rows"""
+
+    def py(self, scalar=False, matrix=False):
+        vs = self.vars()
+        if not vs:
+            return geomgen.PF.py(self, scalar=scalar, matrix=matrix)
+        import torch
+        comps = [geomgen.pt_py(t) if geomgen.pt_vars(t) else f"torch.full((1, 1), {float(geomgen.pt_eval(t, {}))!r})" for t in self.terms]
+        src = (f"def _f({', '.join(vs)}):\n    comps = torch.broadcast_tensors({', '.join(comps)}, {', '.join(v + '[:, :1]' for v in vs)})\n"
+               f"    return torch.cat(comps[:{len(comps)}], dim=1)\n")
+        ns = {"torch": torch}
+        exec(src, ns)
+        return ns["_f"]
+
+
+def broadcasting(node):
+    node.pfs = [PFB(p.terms) for p in node.pfs]
+    for kid in node.kids:
+        broadcasting(kid)
+    return node
+
+
+def run_peval(cs, rep, lines, pending, inp):
+    tp = common.use_repo()
+    import torch
+    node = broadcasting(geomgen.from_json(cs["dom"]))
+    fv, free = cs["fixvar"], cs["freevar"]
+    vals = [Fr(v) for v in cs["vals"]]
+    what0 = f"D = {node.kind}[{','.join(node.free_vars())}]; copies D({fv}=v) for v in {[float(v) for v in vals]}"
+    try:
+        D0 = node.to_tp(tp)
+        copies = [D0(**{fv: torch.tensor([[float(v)]])}) for v in vals]      # evaluated one after the other from ONE original
+        if cs["then_other"]:
+            D0(**{free: torch.tensor([[0.5]])})                               # ... and once in the other variable
+        Dc = copies[cs["sampled"]]                                           # an EARLIER copy is sampled
+        if cs["bdry"]:
+            Dc = Dc.boundary
+    except Exception as e:  # noqa
+        rep.fail(f"{what0}: evaluating the domain failed: {type(e).__name__}: {str(e)[:160]}", inp)
+        return
+    v0 = vals[cs["sampled"]]
+    rep.count("peval:" + ("bdry " if cs["bdry"] else "") + node.kind)
+    names = [free]
+    params = mk_params(tp, names, cs["prows"])
+    prows = [{free: [Fr(r[free][0])]} for r in cs["prows"]]
+    k, n, api = len(prows), cs["n"], cs["api"]
+    if api in ("dom.grid",) and k > 1:
+        api = "dom.random"
+    if api == "dom.random":
+        f = lambda: Dc.sample_random_uniform(n=n, params=params)
+    elif api == "dom.grid":
+        f = lambda: Dc.sample_grid(n=n, params=params)
+    elif api == "smp.uniform":
+        f = lambda: tp.samplers.RandomUniformSampler(Dc, n_points=n).sample_points(params)
+    else:
+        f = lambda: tp.samplers.GridSampler(Dc, n_points=n).sample_points(params)
+    res, err = call(f)
+    what = f"{what0}; the copy D({fv}={float(v0)}){'.boundary' if cs['bdry'] else ''} sampled by {api}(n={n}) with {k} rows of {free}"
+    if err:
+        rep.fail(f"{what} " + ("did not return within %ds" % TIMEOUT if err == "timeout" else "failed: " + err), inp)
+        return
+    co = res.coordinates
+    if len(res) != n * k:
+        rep.fail(f"{what} returned {len(res)} rows", inp)
+        return
+    var = node.vars()[0]
+    dt = node.tokens()
+    for r in range(len(res)):
+        pt = [float(x) for x in co[var][r].tolist()]
+        if not all(math.isfinite(x) for x in pt):
+            rep.fail(f"{what} returned a non-finite point", inp)
+            return
+        fval = Fr(float(co[free][r, 0])) if api.startswith("smp.") else prows[r // n][free][0]
+        env = {free: [fval], fv: [v0]}
+        lines.append("sd " + dt + " " + env_tokens({var: [Fr(x) for x in pt]}) + " " + env_tokens(env))
+        pending.append(("peval", what, inp, r, pt, env, cs["bdry"]))
+        rep.count("peval:rows-checked")
+
+
+def eval_peval(rep, item, rl):
+    _, what, inp, r, pt, env, bdry = item
+    if rl == "none" or rl.startswith("bad-op"):
+        rep.disagree("drivers/C01.lean sd cannot evaluate a row of an evaluated domain", inp, pt, rl)
+        return False
+    m = Fr(rl)
+    if m < -Fr(1, 5000) or (bdry and m > Fr(1, 5000)):
+        rep.fail(f"{what}: row {r} is the point {pt} with { {q: float(v[0]) for q, v in env.items()} }: "
+                 + ("outside the set the evaluated copy denotes" if m < 0 else "in the interior, not on the boundary of the evaluated copy")
+                 + f" (exact signed margin {float(m):.4g} of D at the row's parameters and the value the copy was evaluated at)", inp,
+                 detail=dict(row=r, point=pt))
+        return True
+    return False
 
 
 # ---------------------------------------------------------------------------------------------
@@ -465,6 +627,8 @@ def run_case(cs, rep, lines, pending):
                 rep.fail(f"{what} returned {got} in row {r}, the point of that row's parameter t={tval} is {want}", inp)
                 return
         return
+    if st == "peval":
+        return run_peval(cs, rep, lines, pending, inp)
     if st == "polycombo":
         return run_polycombo(cs, rep, lines, pending, inp)
     return run_composed(cs, rep, lines, pending, inp)
@@ -703,6 +867,11 @@ def run(ctx, rep, cases=None):
         if callable(item):
             rl = replies[pos]; pos += 1
             item(rl)
+        elif item[0] == "peval":
+            cid = item[2]["id"]
+            if cid not in failed_cases and eval_peval(rep, item, replies[pos]):
+                failed_cases.add(cid)
+            pos += 1
         else:
             cnt = 2 if item[1] == "either" else 1
             cid = item[3]["id"]
